@@ -534,6 +534,21 @@ def command_line(rng, vocab=None, collide=False, depth=4, lit_rng=None, vary_num
     if comp == 'slow':
         entry['c'] = 'NETWORK' if rng.random() < 0.3 else 'COMMAND'
         entry['msg'] = 'Slow query'
+    # member ORDER carries no meaning in JSON: a log that went through another tool (jq -S, a re-serialiser) has its members sorted or shuffled -
+    # the command name no longer first, `documents` before `insert`, `attr` before `c`
+    if rng.random() < 0.12:
+        how = rng.choice(['sorted', 'reversed', 'shuffled'])
+        def reorder(d):
+            items = list(d.items())
+            if how == 'sorted': items.sort(key=lambda kv: kv[0])
+            elif how == 'reversed': items.reverse()
+            else: rng.shuffle(items)
+            return dict(items)
+        for ck in ('command', 'cmd', 'originatingCommand'):
+            if isinstance(attr.get(ck), dict): attr[ck] = reorder(attr[ck])
+        entry['attr'] = reorder(attr)
+        if rng.random() < 0.5: entry = reorder(entry)
+        g.stats['member_order_' + how] = 1
     info = {'ns_names': g.ns_names, 'sensitive': g.p.sensitive, 'sens_numbers': g.p.sens_numbers, 'names': sorted(g.p.names), 'verbs': verbs,
             'placement': placement, 'ip': ip, 'db': db, 'coll': coll, 'stats': g.stats}
     return dumps(entry).encode('utf-8'), info
@@ -779,6 +794,23 @@ def family_logs():
     logs.append([base] + variants)
     logs.append(list(reversed(variants)) + [base])
     return logs
+
+def long_value_lines():
+    """systematic: long literals around every power-of-two size a scratch buffer is likely to have (255 .. 65 KiB short of the line limit), each
+    once alone and once as a PAIR of literals that agree on all but their last character - in the places a string is redacted"""
+    out = []
+    sizes = [255, 256, 257, 511, 512, 513, 1023, 1024, 1025, 2048, 4095, 4096, 4097, 8193, 16385, 40000]
+    for i, n in enumerate(sizes):
+        stem = ('Lq%dq' % n) + ''.join(chr(0x61 + (j * 7 + i) % 26) for j in range(n - 8))
+        a, b = stem + 'A', stem + 'B'
+        cmds = ['{"find":"c","filter":{"f":%s,"g":{"$in":[%s]}},"$db":"d"}' % (json.dumps(a), json.dumps(b)),
+                '{"update":"c","updates":[{"q":{"k":%s},"u":{"$set":{"v":%s}}}],"$db":"d"}' % (json.dumps(a), json.dumps(b)),
+                '{"aggregate":"c","pipeline":[{"$match":{"f":%s}},{"$match":{"f":%s}}],"$db":"d"}' % (json.dumps(b), json.dumps(a))]
+        cmd = cmds[i % 3]
+        l = '{"t":{"$date":"2020-01-01T00:00:00.000+00:00"},"s":"I","c":"COMMAND","id":51803,"ctx":"conn1","msg":"Slow query","attr":{"ns":"d.c","command":%s,"remote":"10.0.0.1:5"}}' % cmd
+        out.append((l.encode(), {'kind': 'longvalue', 'sensitive': [(a, 'string', 'long literal %d' % n), (b, 'string', 'long literal %d' % n)], 'sens_numbers': [], 'ip': '10.0.0.1:5',
+                                 'stats': {'longvalue_%d' % n: 1}, 'names': ['f', 'g', 'k', 'v'], 'verbs': ['longvalue']}))
+    return out
 
 def vocab_from_dump(dump):
     allk, argnames = [], []
